@@ -11,7 +11,7 @@ import (
 
 func init() {
 	// ---- C11: rarely used fields and variants through the wire oracles
-	registerRows("C11", probeRow{"W1-rare-fields", func(w *World, n *Node) {
+	rare := probeRow{"W1-rare-fields", func(w *World, n *Node) {
 		sc := n.fork()
 		addr := w.advAddr()
 		void := types.VoidAddress
@@ -109,6 +109,44 @@ func init() {
 				w.stats.Inc("probe.W1-v1-" + name)
 			}
 		}
+		// a siafund output created and spent inside one block, in compressed form
+		// (valid below the ephemeral output height; the codec must skip the
+		// proof-less parent at any height)
+		if sc.v2ok() {
+			for _, id := range sc.store.sortedSF() {
+				sf := sc.store.SF[id]
+				wl, ai := w.ownerOf(sf.SiafundOutput.Address)
+				if wl == nil || !wl.canSatisfyNow(sc.s, ai) {
+					continue
+				}
+				t1 := types.V2Transaction{SiafundInputs: []types.V2SiafundInput{{Parent: sf.Copy(), ClaimAddress: addr}}, SiafundOutputs: []types.SiafundOutput{{Value: sf.SiafundOutput.Value, Address: sf.SiafundOutput.Address}}}
+				if !w.signAllV2(sc.s, &t1) {
+					continue
+				}
+				eph := types.SiafundElement{ID: t1.SiafundOutputID(t1.ID(), 0), StateElement: types.StateElement{LeafIndex: types.UnassignedLeafIndex}, SiafundOutput: t1.SiafundOutputs[0], ClaimStart: sc.s.SiafundTaxRevenue}
+				t2 := types.V2Transaction{SiafundInputs: []types.V2SiafundInput{{Parent: eph, ClaimAddress: addr}}, SiafundOutputs: []types.SiafundOutput{{Value: sf.SiafundOutput.Value, Address: addr}}}
+				if !w.signAllV2(sc.s, &t2) {
+					break
+				}
+				txns := []types.V2Transaction{t1, t2}
+				if e, ok := pickSC(w, sc.ownedSC(false, true)); ok {
+					if t3, ok := w.spendV2(sc.s, []types.SiacoinElement{e}, addr); ok {
+						txns = append(txns, t3)
+					}
+				}
+				var b types.Block
+				if p := guard(func() { b = w.assembleOpt(sc.s, sc.nextTimestamp(), w.miners[0].addr, nil, txns, true) }); p == "" {
+					var enc []byte
+					if p := guard(func() { enc = encodeBlock(b) }); p != "" {
+						w.violate("C18", "multiproof-encode-panic", "block with an ephemeral siafund parent: "+p)
+					} else {
+						w.onWire("block", b, enc)
+						w.stats.Inc("probe.W1-ephemeral-siafund-multiproof")
+					}
+				}
+				break
+			}
+		}
 		// the state before genesis (height = all ones, no timestamps)
 		pre := w.net.GenesisState()
 		if p := guard(func() { w.onWire("state", pre, encodeState(pre)) }); p != "" {
@@ -116,7 +154,9 @@ func init() {
 		}
 		w.stats.Inc("probe.W1-pre-genesis-state")
 		w.stats.Inc("probe.rows-run")
-	}})
+	}}
+	registerRows("C11", rare)
+	registerRows("C18", rare)
 
 	// ---- C12: partial-coverage signature over a siafund input replayed across an era boundary
 	registerRows("C12", probeRow{"S2-partial-siafund-replay", func(w *World, n *Node) {
